@@ -1,7 +1,8 @@
 (* C11 - executable model of cfdm's treatment of netCDF hierarchical groups.
 
-   Transcribed from (pinned tree + the repairs of handoff/C11-fix-*.diff; the
-   superseded behaviour is kept in the [..._old] definitions):
+   Transcribed from (current tree, which has the repairs of handoff/C11-fix-*.diff, plus the
+   repairs of handoff/C11-fix2-1.diff and C11-fix2-2.diff; the superseded behaviour is kept in
+   the [..._old] definitions):
      cfdm/read_write/netcdf/flatten/flatten.py   search_by_relative_path, search_by_proximity,
                                                  resolve_reference(_proximity/_post_processing),
                                                  adapt_name, pathname, generate_flattened_name,
@@ -15,6 +16,7 @@
 
    Names are lists of characters ([str]); a group is a rose tree.  Definitions
    only - proofs are in Lemmas.v. *)
+From Coq Require Import DecimalString.
 From CfdmV Require Import Common.Base Tables.FlattenRules.
 Open Scope nat_scope.
 
@@ -344,12 +346,38 @@ Fixpoint var_map (hash : str -> str) (p : list str) (g : group) : list (str * st
 Fixpoint assoc_str (k : str) (l : list (str * str)) : option str :=
   match l with [] => None | (a, b) :: r => if str_eqb a k then Some b else assoc_str k r end.
 
+(* _Flattener.unique_flattened_name (repair C11-fix2-1): a name already in use in the output
+   dataset gets "_<n>" appended, n = 1, 2, .. the first that is free.  [dec] is str(n). *)
+Definition dec (n : nat) : str := list_ascii_of_string (NilZero.string_of_uint (Nat.to_uint n)).
+
+Fixpoint uniq_from (fuel n : nat) (used : list str) (name : str) : str :=
+  let c := name ++ [("_")%char] ++ dec n in
+  match fuel with
+  | 0 => c                       (* reached only with a free name: Deep.uniq_fresh *)
+  | S f => if mem_str c used then uniq_from f (S n) used name else c
+  end.
+
+Definition uniq (used : list str) (name : str) : str :=
+  if mem_str name used then uniq_from (length used) 1 used name else name.
+
+(* the names as they are created one after the other in the output dataset *)
+Fixpoint dedup_from (used : list str) (l : list (str * str)) : list (str * str) :=
+  match l with
+  | [] => []
+  | (k, f) :: r => let f' := uniq used f in (k, f') :: dedup_from (f' :: used) r
+  end.
+Definition dedup (l : list (str * str)) : list (str * str) := dedup_from [] l.
+
+(* _dim_map / _var_map and the mapping attributes of the flattened dataset *)
+Definition dim_map_u (hash : str -> str) (root : group) : list (str * str) := dedup (dim_map hash [] root).
+Definition var_map_u (hash : str -> str) (root : group) : list (str * str) := dedup (var_map hash [] root).
+
 (* adapt_name *)
 Definition adapt (hash : str -> str) (root : group) (rl : rules) (strict : bool) (resolved : str) : rres :=
   if substrb not_found resolved then RStr resolved
   else
-    let dm := dim_map hash [] root in
-    let vm := var_map hash [] root in
+    let dm := dim_map_u hash root in
+    let vm := var_map_u hash root in
     let first_map := if r_var rl <? r_dim rl then Some dm
                      else if r_dim rl <? r_var rl then Some vm else None in
     match first_map with
@@ -449,25 +477,35 @@ Definition flatten_attr := flatten_attr_gen true.
 Definition flatten_attr_old := flatten_attr_gen false.
 
 (* ------------------------------------------------------------------ reader: un-flattening *)
-(* netcdfread.py 1369-1428 for one entry "flat: /a/b/name" of _flattener_variable_map:
-   the group tuple, the name recorded as nc_get_variable, and variable_basename. *)
+(* netcdfread.py, for one entry "flat: /a/b/name" of _flattener_variable_map:
+   the group tuple, the name recorded as nc_get_variable, and variable_basename.
+   Repaired code (C11-fix2-1): the basename is the last component of the absolute path; the
+   flattened name itself is not looked at (it may be hashed or carry a counter). *)
 Definition mid {A} (l : list A) : list A := removelast (tl l).      (* l[1:-1] *)
 
 Definition unflatten_var (flat abs : str) : list str * str * str :=
   let groups := mid (split_on slash abs) in
   match groups with
   | [] => ([], tl abs, flat)                      (* ncvar = ncvar[1:]; basename = flat name *)
+  | _ => (groups, abs, last (split_on slash abs) [])
+  end.
+
+(* before that repair: the group prefix was stripped from the flattened name with re.sub *)
+Definition unflatten_var_old (flat abs : str) : list str * str * str :=
+  let groups := mid (split_on slash abs) in
+  match groups with
+  | [] => ([], tl abs, flat)
   | _ => (groups, abs, strip_prefix (join sep2 groups ++ sep2) flat)
   end.
 
-(* the same for a dimension (1438-1455).  [fixed = false]: the pattern is not an f-string in
-   the pinned code, so the basename of a dimension in a group stays the flattened name (F11c). *)
+(* the same for a dimension.  [fixed = false]: the pattern is not an f-string in the pinned
+   code, so the basename of a dimension in a group stays the flattened name (F11c). *)
 Definition unflatten_dim_gen (fixed : bool) (flat abs : str) : list str * str * str :=
   let abs' := if starts_with [slash] abs && Nat.eqb (count_chr slash abs) 1 then tl abs else abs in
   let groups := mid (split_on slash abs') in
   match groups with
   | [] => ([], abs', flat)
-  | _ => (groups, abs', if fixed then strip_prefix (join sep2 groups ++ sep2) flat else flat)
+  | _ => (groups, abs', if fixed then last (split_on slash abs') [] else flat)
   end.
 
 (* ------------------------------------------------------------------ reader: coordinate variables *)
@@ -575,6 +613,36 @@ Fixpoint nc_lookup_dim (root : group) (rp : list str) (n : str) : option (list s
       if mem_str n (gdims g) then Some (rev rp)
       else match rp with [] => None | _ :: rp' => nc_lookup_dim root rp' n end
   end.
+
+(* repair C11-fix2-2: the dimension is handed to netCDF by its basename; walking from the
+   variable's group up to (not including) the dimension's group, no group may define a dimension
+   of that basename - else ValueError "... is hidden by the netCDF dimension of the same name".
+   A group of the path that does not exist yet is created empty by _parent_group. *)
+Fixpoint no_hiding (root : group) (rp : list str) (k : nat) (n : str) : bool :=
+  match k with
+  | 0 => true
+  | S k' =>
+      match find_group root (rev rp) with
+      | Some g => negb (mem_str n (gdims g)) && no_hiding root (tl rp) k' n
+      | None => no_hiding root (tl rp) k' n
+      end
+  end.
+
+(* max(groups.count("/") - 1, 0) *)
+Definition depth_of (gs : str) : nat := Nat.pred (count_chr slash gs).
+
+Definition dims_unhidden (root : group) (ncvar : str) (ncdims : list str) : bool :=
+  match parent_group_path true ncvar with
+  | None => false
+  | Some gv =>
+      forallb (fun d => no_hiding root (rev gv)
+                          (depth_of (groups_str ncvar) - depth_of (groups_str d))
+                          (remove_group_structure d)) ncdims
+  end.
+
+(* both checks; [root] is the state of the output file when the variable is created *)
+Definition writer_accepts (root : group) (group : bool) (ncvar : str) (ncdims : list str) : bool :=
+  dims_visible group ncvar ncdims && (if group then dims_unhidden root ncvar ncdims else true).
 
 (* ------------------------------------------------------------------ mixin: names and groups *)
 (* NetCDFMixin._nc_set: the stored name, None = ValueError *)
